@@ -294,9 +294,21 @@ class StreamListener(object):
         self._rec(stream, 'failed', kw)
 
 
+class Bystander(object):
+    """one of very many listeners that only count what they are told (C08, 'crowd' runs)"""
+    n = 0
+
+    def _count(self, *a, **kw):
+        self.n += 1
+
+    circuit_new = circuit_launched = circuit_extend = circuit_built = circuit_closed = circuit_failed = _count
+    stream_new = stream_succeeded = stream_attach = stream_detach = stream_closed = stream_failed = _count
+
+
 def _declare_listeners():
     from txtorcon.interface import ICircuitListener, IStreamListener
     from zope.interface import classImplements
+    classImplements(Bystander, ICircuitListener, IStreamListener)
     classImplements(AppCircuitListener, ICircuitListener)
     classImplements(CircListener, ICircuitListener)
     classImplements(StreamListener, IStreamListener)
@@ -1057,6 +1069,11 @@ class StateRun(object):
         self.make_relays()
         self.build_tor()
         self.events_left = 5 + ch.draw(self.P.get('max_events', 120), 'nevents')
+        self.long_history = self.prop in ('C07', 'C08') and ch.chance(1, self.P.get('long_every', 300), 'longhistory')
+        if self.long_history:
+            # a controller that has been attached for days: thousands of events over the same bounded population
+            self.events_left = 6000 + ch.draw(3000, 'nlongevents')
+            sim.probe('more-than-6000-events')
         # a world history before the controller attaches (not reported; only the snapshot shows it)
         self.tor.subscribed = {'CIRC', 'STREAM'}
         self.tor_conn_fake = True
@@ -1164,7 +1181,7 @@ class StateRun(object):
         sim = self.sim
         self.setup()
         n = 0
-        budget = self.P.get('max_steps', 6000)
+        budget = self.P.get('max_steps', 6000) + (4 * self.events_left if getattr(self, 'long_history', False) else 0)
         while n < budget:
             if self.finished():
                 break
@@ -1249,6 +1266,15 @@ class C08Run(StateRun):
         self.relisten_ops = ch.draw(3, 'nrel')
         self.note_widx = []
         self.step_self_removed = set()
+        self.crowd = []
+        if ch.chance(1, self.P.get('crowd_every', 40), 'crowd'):
+            # an application with very many listeners (one per tab, per request ...), registered before anybody else:
+            # every one of them hears every transition, and so does whoever registers after them
+            self.crowd = [Bystander() for _ in range(950 + ch.draw(400, 'ncrowd'))]
+            for b in self.crowd:
+                self.state_obj.add_circuit_listener(b)
+                self.state_obj.add_stream_listener(b)
+            self.sim.probe('more-than-900-listeners')
         self.sim.add_source(self.c08_actions)
 
     def finished(self):
@@ -1647,6 +1673,12 @@ class C08Run(StateRun):
         if sim.already_called:
             sim.fail('C08.already-called-error', 'a Deferred fired twice (%d AlreadyCalledError)' % sim.already_called)
         self.check_waits(final=True)
+        if self.crowd:
+            counts = sorted(set(b.n for b in self.crowd))
+            if len(counts) > 1:
+                sim.fail('C08.listener-missed-notification-among-many',
+                         '%d listeners registered together, never removed: some were notified %d times, others %d times' % (
+                             len(self.crowd), counts[0], counts[-1]))
 
 
 def run(sim):   # noqa: F811
